@@ -302,7 +302,7 @@ def run(ctx):
     ctx.floor("no-key share", round(cl["no-keys"] / tot, 3), 0.04)
     ctx.floor("unsat share", round(cl["unsat"] / tot, 3), 0.10)
     ctx.floor("native route share", round(cl["route:native"] / tot, 3), 0.3)
-    ctx.floor("loop route share", round(cl["route:loop"] / tot, 3), 0.2)
+    ctx.floor("loop route share", round(cl["route:loop"] / tot, 3), 0.15)
     ctx.floor("cases through a real subprocess", cl["real-subprocess"], 5)
 
 
